@@ -396,7 +396,7 @@ def load_glb(
 
     # uint32 causes an error in read, so we convert to native int
     # for the length passed to read, for the JSON header
-    json_data = file_obj.read(int(chunk_length))
+    json_data = _read_chunk(file_obj, chunk_length)
     # convert to text
     if hasattr(json_data, "decode"):
         json_data = util.decode_text(json_data)
@@ -433,7 +433,7 @@ def load_glb(
         if chunk_type != _magic["bin"]:
             raise ValueError("not binary GLTF!")
         # read the chunk
-        chunk_data = file_obj.read(int(chunk_length))
+        chunk_data = _read_chunk(file_obj, chunk_length)
         if len(chunk_data) != chunk_length:
             raise ValueError("chunk was not expected length!")
         buffers.append(chunk_data)
@@ -451,6 +451,38 @@ def load_glb(
     )
 
     return kwargs
+
+
+def _read_chunk(file_obj, length) -> bytes:
+    """
+    Read a GLB chunk without trusting its length field: an
+    on-disk file allocates the whole requested buffer before
+    reading so a corrupt length would allocate gigabytes.
+
+    Parameters
+    -----------
+    file_obj : file-like object
+      Positioned at the start of the chunk data
+    length : int
+      Chunk length from the chunk header
+
+    Returns
+    ----------
+    data : bytes
+      Chunk data
+    """
+    # uint32 causes an error in read so convert to native int
+    length = int(length)
+    try:
+        current = file_obj.tell()
+        end = file_obj.seek(0, 2)
+        file_obj.seek(current)
+    except BaseException:
+        # not a seekable file object
+        return file_obj.read(length)
+    if length > end - current:
+        raise ValueError("chunk is longer than the file!")
+    return file_obj.read(length)
 
 
 def _uri_to_bytes(uri: str, resolver: ResolverLike) -> bytes:
